@@ -13,6 +13,11 @@ CHECKS = {
             "Every unordered pair of 13 real writer/reader operations (message, run spawned/ended, side effects, cursor set/rotate, selection decided, manual/auto/scheduled compaction, branch, handoff, reader replay) on one shared thread, from a warm, a restarted and a restarted-cache-less store, plus sessions and linked runs sharing the log writer, is explored over all interleavings at lock / publish / cache / log-effect hooks with <=1 (quick) / <=2-3 (thorough, plus triples) preemptions; at quiescence a fresh EventLog must pass validated replay, every stream must read 0..n-1 in file order, every acknowledged id must appear once, and the same after a restart plus one more append per thread.",
             "2-3 actors, one op each; scheduling granularity = hook points (critical sections are the real ones: predicates read the real locks); preemption bound; histories crossing several restarts are covered by C05/C04.",
             "DESIGN.md §3 C01"),
+    "C04": ("H-histories", "fault_enumeration",
+            "bounded exhaustive enumeration of histories x single cache faults x read capabilities; differential oracle (fault applied vs cache directory removed) on fresh authorities; watchdog for termination",
+            "For every history of <=3 (quick) / <=4 (thorough) ops plus window-crossing threads (600 / 10 001 dense frames, 300 KiB and 3x3 MiB messages, 18 messages) every single fault {delete, truncate to 0 / 1 byte / mid-record / last line boundary / half, equal-length garbage, roll-back to the content after each earlier op} is applied to every cache file of the thread; a fresh authority must then answer replay, cut points, compaction status, cursor status, selection status and the compiled context for every message anchor exactly like a fresh authority on the same store without caches, again after one more append, and validated replay must still hold; every step runs under a 25 s watchdog.",
+            "Single faults only (pairs disabled until single-fault findings are attributable inside pairs); histories bounded; the truth side equals log replay by construction; faults are applied while no authority is running (concurrent cache damage is not modelled); four known-finding classes (derived caches validated only against themselves).",
+            "DESIGN.md §3 C04"),
     "C05": ("K", "fault_enumeration",
             "exhaustive crash-point enumeration: an LD_PRELOAD shim kills the real process before every mutating file-system call of every bounded history; recovery oracle on the leftover directory",
             "Every history of <=2 (quick) / <=3 (all 11 ops) and 4 (5 cheapest ops) operations after open+ensure_default runs in a subprocess under the shim once per mutating syscall on a store path (3-95 crash points per history, 4.6k quick / 95k thorough in total); after each kill a fresh authority must replay and validate the log, find every acknowledged frame exactly once, find every referenced artifact, resolve the default thread, continue the numbering after one append per thread, and answer every read capability as with the caches removed.",
